@@ -8,6 +8,13 @@ import (
 
 func Mesh(mesh modeling.Mesh, transforms []trs.TRS) modeling.Mesh {
 	result := modeling.EmptyMesh(mesh.Topology())
+
+	// Any number of copies of nothing is nothing (an empty mesh carries no
+	// position attribute that could be transformed).
+	if mesh.Indices().Len() == 0 && !mesh.HasFloat3Attribute(modeling.PositionAttribute) {
+		return result
+	}
+
 	for _, transform := range transforms {
 		result = result.Append(mesh.ApplyTRS(transform))
 	}
